@@ -394,6 +394,21 @@ func judgeH1(r *hk.Run, cs *Case, res *Result) {
 		r.Count("coq:h1")
 		emitted = true
 	}
+	if cs.Kind == "h2" && len(cs.GoAways) > 0 && res.RespNil {
+		// what the pending request is told when the connection ends after the GOAWAY frames
+		if last, code, dbg, ok := parseGoAwayError(res.Err); ok {
+			var fl []string
+			for _, f := range cs.GoAways {
+				fl = append(fl, fmt.Sprintf("(H2GoAway.Build_gframe %s %s %s)", hk.CoqN(uint64(f.Last)), hk.CoqN(uint64(f.Code)), hk.CoqStr(f.Debug)))
+			}
+			r.Add(hk.Case{Coq: fmt.Sprintf("GoAwayCase %s %s %s %s", hk.CoqList(fl), hk.CoqN(last), hk.CoqN(code), hk.CoqStr(dbg)),
+				Desc: map[string]interface{}{"kind": "goaway", "case": cs, "error": res.Err}}, "goaway|"+key, true)
+			r.Count("coq:goaway")
+			emitted = true
+		} else {
+			r.Count("goaway:other-error")
+		}
+	}
 	if cs.Kind == "h2" && len(cs.InfoCodes) > 0 && cs.Rounds[0].End == "fin" && cs.Method != "HEAD" {
 		obs := "OErr"
 		if !res.RespNil {
@@ -525,4 +540,33 @@ func dialBound(cs *Case) int {
 		b += 11 // net/http follows up to 10 redirects
 	}
 	return b
+}
+
+var h2ErrNames = map[string]uint64{"NO_ERROR": 0, "PROTOCOL_ERROR": 1, "INTERNAL_ERROR": 2, "FLOW_CONTROL_ERROR": 3, "SETTINGS_TIMEOUT": 4, "STREAM_CLOSED": 5,
+	"FRAME_SIZE_ERROR": 6, "REFUSED_STREAM": 7, "CANCEL": 8, "COMPRESSION_ERROR": 9, "CONNECT_ERROR": 10, "ENHANCE_YOUR_CALM": 11, "INADEQUATE_SECURITY": 12, "HTTP_1_1_REQUIRED": 13}
+
+// "http2: server sent GOAWAY and closed the connection; LastStreamID=1, ErrCode=ENHANCE_YOUR_CALM, debug=\"first\""
+func parseGoAwayError(e string) (last, code uint64, debug string, ok bool) {
+	i := strings.Index(e, "server sent GOAWAY and closed the connection; LastStreamID=")
+	if i < 0 {
+		return
+	}
+	rest := e[i+len("server sent GOAWAY and closed the connection; LastStreamID="):]
+	j := strings.Index(rest, ", ErrCode=")
+	k := strings.Index(rest, ", debug=")
+	if j < 0 || k < j {
+		return
+	}
+	if _, err := fmt.Sscan(rest[:j], &last); err != nil {
+		return
+	}
+	c, known := h2ErrNames[rest[j+len(", ErrCode="):k]]
+	if !known {
+		return
+	}
+	d, err := strconv.Unquote(strings.TrimSpace(rest[k+len(", debug="):]))
+	if err != nil {
+		return
+	}
+	return last, c, d, true
 }
